@@ -569,9 +569,9 @@ def known_findings():
 # s1      : regex selecting the S1 mismatch categories that concern the property (None = all)
 # ns      : theorem namespaces counted as this property's obligations
 PROPS = {
-    "C01": dict(key="C01", unsafe="0", streams=("S1", "S2", "S3"), s1=None, ns=["C01", "C17", "Tables"], big=True),
-    "C02": dict(key="C02", unsafe="0", streams=("S1", "S2", "S3"), s1=None, ns=["C02", "C17", "Tables"], big=True),
-    "C03": dict(key="C03", unsafe="0", streams=("S1", "S2", "S3"), s1=None, ns=["C03", "C17", "Tables"]),
+    "C01": dict(key="C01", unsafe="0", streams=("S1", "S2", "S3", "S11"), s1=None, ns=["C01", "C17", "Tables"], big=True),
+    "C02": dict(key="C02", unsafe="0", streams=("S1", "S2", "S3", "S11"), s1=None, ns=["C02", "C17", "Tables"], big=True),
+    "C03": dict(key="C03", unsafe="0", streams=("S1", "S2", "S3", "S11"), s1=None, ns=["C03", "C17", "Tables"]),
     "C04": dict(key="C04", unsafe="mix", streams=("S2", "S3"), s1=r"^$", ns=["C04", "Tables"], big=True),
     "C05": dict(key="C05", unsafe="0", streams=("S1", "S2", "S3"), s1=r"cleanup|valid_opcodes", ns=["C05", "Tables"], big=True),
     "C06": dict(key="C06", unsafe="mix", streams=("S2", "S3"), s1=r"^$", ns=["C06"], big=True),
